@@ -62,6 +62,10 @@ CHECKS = {
    text='Every sequence of a funding step plus 2 (thorough 3) operations from a 34-entry alphabet (fund at R-1/R/R+1, replenish accounts/pools, attach valid/wrong signer/expired, detach by account/pool/wrong key, reads over offsets{0,32,64}x lengths{32,64,128}, write, verify) on the real server with a real 4 MiB sector and both contractors; a double-entry ledger is rebuilt from the recorded Contractor/Sectors calls and compared with a reference model after every operation.',
    note='balances probed around the 64-byte read price; core validation/pricing trusted.',
    technique='exhaustive operation-sequence enumeration against a reference ledger model with call-log oracles', design='§4 C15'),
+ 'C16': dict(level='fault_enumeration', engine='rhpmc',
+   text='RPCFormContract, RPCRenewContract and both refresh variants with a full host stack (real chain.Manager, SingleAddressWallet, server; reference and trusting contractor) and a separate renter node and wallet: 5 basis relations (same tip, renter behind 1/2, stale fork known/unknown to the host) x dial failure and, at sampled byte offsets of either direction, a flipped byte or a cut; 20 consecutive failures then an honest attempt. Success => both parties hold the same doubly signed contract, the set is accepted by a fresh pool and mining it yields exactly that contract (reference ledger). Failure => no contract recorded and host/renter spendable balance, spendable outputs and reservation tables unchanged (once the renter\'s signatures reached the host, a complete doubly signed contract is the only other allowed outcome).',
+   note='fault offsets sampled (every 9th/16th byte quick, denser thorough); exchanges bounded by a 1.2 s deadline that only ends stuck exchanges.',
+   technique='exhaustive fault-position enumeration over both byte streams of every exchange on the real stack with ledger/wallet oracles', design='§4 C16'),
  'C17': dict(level='model_checking', engine='kvmc',
    text='Explicit-state enumeration of every applicable operation sequence up to length L (quick 5 / thorough 7 in-memory, 4 / 5 Bolt) over a 2x2x3 bucket/key/value alphabet on MemDB, CacheDB(MemDB), CacheDB(CacheDB(MemDB)), BoltChainDB and CacheDB(BoltChainDB); every Bucket/Get/Iter observation after every operation is compared with a two-map reference model.',
    note='nil-valued puts excluded; nil and empty Get results not distinguished; bbolt atomic commit trusted. Chain-level clause is exercised by the C02 backend replay.',
